@@ -214,7 +214,9 @@ func goroutineBlocks(dump string) []string {
 	return blocks
 }
 
-var oomMarks = []string{"out of memory", "cannot allocate memory", "failed to allocate", "runtime: out of memory"}
+// resource exhaustion of the (shared) machine: memory, threads
+var oomMarks = []string{"out of memory", "cannot allocate memory", "failed to allocate", "runtime: out of memory",
+	"pthread_create failed", "failed to create new OS thread", "newosproc", "Resource temporarily unavailable", "thread limit"}
 
 // sigFromOutput analyses the output of a child that died.
 func sigFromOutput(out string) (crashSig, bool) {
@@ -249,6 +251,12 @@ func sigFromOutput(out string) (crashSig, bool) {
 	consider("fatal error: ", "fatal")
 	consider("runtime: out of memory", "oom")
 	consider("runtime: cannot allocate memory", "oom")
+	consider("runtime/cgo: pthread_create failed", "oom")
+	consider("runtime: failed to create new OS thread", "oom")
+	consider("runtime: program exceeds", "oom")
+	consider("SIGABRT: abort", "fatal")
+	consider("SIGILL: illegal instruction", "fatal")
+	consider("SIGFPE: floating-point exception", "fatal")
 	consider("==ERROR: ThreadSanitizer", "oom")
 	consider("ThreadSanitizer: failed to", "oom")
 	consider("unexpected fault address", "fatal")
@@ -286,7 +294,7 @@ func sigFromOutput(out string) (crashSig, bool) {
 	}
 	blocks := goroutineBlocks(rest)
 	msg := best.msg
-	if strings.HasPrefix(rest, "SIGSEGV") || strings.HasPrefix(rest, "SIGBUS") || strings.HasPrefix(rest, "unexpected fault") {
+	if strings.HasPrefix(rest, "SIGSEGV") || strings.HasPrefix(rest, "SIGBUS") || strings.HasPrefix(rest, "SIGABRT") || strings.HasPrefix(rest, "SIGILL") || strings.HasPrefix(rest, "SIGFPE") || strings.HasPrefix(rest, "unexpected fault") {
 		msg = "signal " + strings.SplitN(rest, ":", 2)[0]
 	}
 	if strings.HasPrefix(msg, "unexpected signal") {
